@@ -140,3 +140,27 @@ func vh_C13_BusyActor() {
 	vfAssert("actor-still-serves", vfAnd(err2 == nil, r2 == vfFn("R", fresh)))
 	vfReach("end")
 }
+
+// AskChannel hands out the reply channel: the asker may read it whenever it likes - here long after the actor called
+// Reply - and still receives exactly the value replied for its request; the actor then goes on serving
+func vh_C13_LateReader() {
+	served := 0
+	actor := c13Actor(0, false, &served)
+	msg, fresh := vfInt("msg"), vfInt("fresh")
+	vfAssume(msg >= 0)
+	vfAssume(fresh >= 0)
+	ch := AskNewGenerics[int, int](msg).AskChannel(actor)
+	time.Sleep(time.Duration(vfRange("delay-100ms", 0, 6)) * 100 * time.Millisecond)
+	got, ok := 0, false
+	select {
+	case got, ok = <-ch:
+	case <-time.After(3 * time.Second):
+	}
+	vfAssert("late-reader-still-gets-its-reply", ok)
+	vfAssert("own-reply", vfImplies(ok, got == vfFn("R", msg)))
+	var r2 int
+	var err2 error
+	vfNoPanic("nopanic-later-ask", func() { r2, err2 = AskNewGenerics[int, int](fresh).AskOnceWithTimeout(actor, time.Second) })
+	vfAssert("actor-still-serves", vfAnd(err2 == nil, r2 == vfFn("R", fresh)))
+	vfReach("end")
+}
